@@ -380,6 +380,10 @@ func (m *Manager) processConnect(params *connection.ConnectParams, authMngr *aut
 	} else {
 		if len(params.AuthMethod) > 0 {
 			// TODO (troian): verify method is allowed
+			// no extended authentication method is supported yet: every CONNECT must be answered,
+			// leaving the response empty closes the connection without any CONNACK
+			_ = pkt.SetReturnCode(mqttp.CodeBadAuthMethod)
+			resp = pkt
 		} else {
 			var reason mqttp.ReasonCode
 
